@@ -36,7 +36,7 @@ unsafe impl Sync for FunctionDescription {}
     note = "All arguments and the return type of this function implement `Value`.",
     note = "You might have forgotten to wrap one of the arguments in `Val<T>`."
 )]
-pub trait RegisterableFn<A, R, MaybeOutPtr>: Send + 'static {
+pub trait RegisterableFn<A, R, MaybeOutPtr>: Send + Sync + 'static {
     /// Whether the first parameter is an out pointer
     const HAS_OUT_PTR: bool;
 
@@ -140,7 +140,7 @@ macro_rules! registerable_fn {
         where
             $($a: Value,)*
             $r: Value,
-            F: Fn($($a,)*) -> $r + Send + 'static,
+            F: Fn($($a,)*) -> $r + Send + Sync + 'static,
         {
             const HAS_OUT_PTR: bool = false;
 
@@ -220,7 +220,7 @@ macro_rules! registerable_fn_out_ptr {
         where
             $($a: Value,)*
             $r: Value,
-            F: Fn(OutPtr<$r>, $($a,)*) + Send + 'static,
+            F: Fn(OutPtr<$r>, $($a,)*) + Send + Sync + 'static,
         {
             const HAS_OUT_PTR: bool = true;
             type RustWrapper = extern "C" fn (*const Self, *mut $r::Transformed, $($a::AsParam),*) -> ();
